@@ -19,7 +19,10 @@ type c07Params struct {
 	Spec    engine.Spec `json:"spec"`
 	Kinds   []int       `json:"kinds"` // failing kinds used by the plan (pass is always mixed in)
 	Barrier bool        `json:"barrier"`
-	Desc    string      `json:"desc"`
+	// SetupHandle: passing iterations with id%3==0 mark failure on the handle captured in setup, which is not
+	// their own; they and every other iteration still pass or fail by their own plan
+	SetupHandle bool   `json:"setup_handle,omitempty"`
+	Desc        string `json:"desc"`
 }
 
 func c07Plan(seed uint64, id uint64, kinds []int) int {
@@ -119,6 +122,20 @@ func init() {
 				qp.Desc += " quiet-logger+verbose"
 				last.P = core.MustJSON(qp)
 			}
+			// a body that marks failure through the handle it captured in setup: not a mark on any iteration
+			nsh := 4
+			if tier == "thorough" {
+				nsh = 30
+			}
+			for k := 0; k < nsh; k++ {
+				add(modes[k%len(modes)], all, false, "all")
+				last := &cs[len(cs)-1]
+				var sp c07Params
+				last.Params(&sp)
+				sp.SetupHandle = true
+				sp.Desc += " fail-through-setup-handle"
+				last.P = core.MustJSON(sp)
+			}
 			return cs
 		},
 		Kinds:  map[string]core.RunFunc{"run": c07Run},
@@ -199,11 +216,18 @@ func c07Once(c *core.Case, o *core.Outcome, p c07Params, reg *scenarios.Scenario
 	lastKindOnHandle := map[*f1testing.T]int{}
 	reuseAfterFailure := 0
 	arrivedAtStall := 0
-	scenario := func(t *f1testing.T) f1testing.RunFn {
+	setupHandleMarks := 0
+	scenario := func(setupT *f1testing.T) f1testing.RunFn {
 		return func(t *f1testing.T) {
 			defer k.Enter(t)()
 			id := engine.IDOf(t)
 			kind := c07Plan(seed, id, p.Kinds)
+			if p.SetupHandle && kind == engine.BPass && id%3 == 0 {
+				setupT.Fail()
+				mu.Lock()
+				setupHandleMarks++
+				mu.Unlock()
+			}
 			mu.Lock()
 			if lk, ok := lastKindOnHandle[t]; ok && lk != engine.BPass {
 				reuseAfterFailure++
@@ -291,12 +315,13 @@ func c07Once(c *core.Case, o *core.Outcome, p c07Params, reg *scenarios.Scenario
 	o.AddObs("failing_iterations", int64(wantFail))
 	o.AddObs("reuse_after_failure", int64(reuseAfterFailure))
 	o.AddObs("barrier_rounds", int64(bar.rounds))
+	o.AddObs("marks_through_setup_handle", int64(setupHandleMarks))
 	if reuseAfterFailure > 0 {
 		name := "all"
 		if len(p.Kinds) == 1 {
 			name = engine.BehaviourNames[p.Kinds[0]]
 		}
-		o.Sig("mode=%s:kinds=%s:barrier=%v:procs=%d", p.Spec.Mode, name, p.Barrier, c.Procs)
+		o.Sig("mode=%s:kinds=%s:barrier=%v:procs=%d:setuphandle=%v", p.Spec.Mode, name, p.Barrier, c.Procs, p.SetupHandle)
 	}
 	o.Sample = map[string]any{"case": p.Desc, "plan": kindsDesc, "result_success": su, "result_failed": fa, "reuse_after_failure": reuseAfterFailure, "barrier_rounds": bar.rounds}
 	return ret
